@@ -98,6 +98,8 @@ struct Track {
     frequency: u32,
     pf: u8,
     frames: Vec<[u8; 14]>,
+    /// 0..13 stray bytes after the last whole frame (a register dump cut in mid-frame): no frame
+    tail: Vec<u8>,
 }
 impl Track {
     fn vtx(&self) -> Vtx {
@@ -105,6 +107,7 @@ impl Track {
         for f in self.frames.iter() {
             fd.extend_from_slice(f);
         }
+        fd.extend_from_slice(&self.tail);
         Vtx {
             chip: if self.ym { SoundChip::YM } else { SoundChip::AY },
             stereo: stereo_of(self.stereo),
@@ -126,7 +129,7 @@ impl Track {
             fd.extend_from_slice(f);
         }
         jobj! {"ym"=>self.ym,"stereo_mode"=>self.stereo,"frequency"=>self.frequency as u64,"player_frequency"=>self.pf,
-        "frames"=>self.frames.len() as u64,"frame_data_hex"=>hex(&fd)}
+        "frames"=>self.frames.len() as u64,"frame_data_hex"=>hex(&fd),"stray_tail_hex"=>hex(&self.tail)}
     }
 }
 
@@ -181,6 +184,7 @@ fn gen_track(rng: &mut Rng, max_frames: usize) -> Track {
             _ => 1 + rng.below(255) as u8,
         },
         frames,
+        tail: if rng.chance(1, 5) { let n = 1 + rng.below(13) as usize; rng.bytes(n) } else { vec![] },
     }
 }
 
